@@ -109,8 +109,9 @@ def setup_decoder(c):
     # internal capture registers = the state variables with a field's name that are not the output register
     def internal(n):
         cands = [v for v in ts.state.values() if str(v).split("$")[0] == n and not v.eq(O["o_" + n])]
-        assert len(cands) == 1, (n, cands)
-        return cands[0]
+        assert len(cands) <= 1, (n, cands)
+        # a capture field that is never assigned has no register: it reads as its reset value 0
+        return cands[0] if cands else bvc(0, O["o_" + n].size())
     both = z3.Concat(w1, w0)
     cap_lo = z3.And(*[internal(n) == bits(both, lo + w - 1, lo) for n, lo, w in FIELDS if lo < 32])
     cap_hi = z3.And(*[internal(n) == bits(both, lo + w - 1, lo) for n, lo, w in FIELDS if lo >= 32])
